@@ -72,3 +72,70 @@ Section Errors.
 
   (* stop-at-first-error mode never collects: no composite exception, and a normal return has no error *)
 End Errors.
+
+(* in collecting mode no single ParserException ever propagates: errors are collected *)
+Section NoRaise1.
+  Context {Tok MS BS Err : Type}.
+  Variable P : params Tok MS BS Err.
+  Notation ctx := (ctx Tok MS BS Err).
+  Notation res := (res Tok MS BS Err).
+  Definition nr1 {A} (r : res A) : Prop := match r with Raise1 _ _ => False | _ => True end.
+  Lemma nr1_bind {A B} (r : res A) (f : A -> ctx -> res B) : nr1 r -> (forall a c, nr1 (f a c)) -> nr1 (bind r f).
+  Proof. destruct r; simpl; auto. Qed.
+  Lemma add_error_nr1 e c : nr1 (add_error P e c).
+  Proof. unfold add_error. destruct (existsb _ _); simpl; auto. destruct (_ <? _); simpl; auto. Qed.
+  Lemma match_k_nr1 k t c : nr1 (match_k P false k t c).
+  Proof.
+    unfold match_k. destruct (_ && _); simpl; auto. destruct (matchf P k (ms c) t); simpl; auto.
+    apply nr1_bind; [apply add_error_nr1|]. intros; simpl; auto.
+  Qed.
+  Lemma any_match_nr1 ks : forall t c, nr1 (any_match P false ks t c).
+  Proof.
+    induction ks as [|k ks IH]; intros t c; simpl; auto.
+    apply nr1_bind; [apply match_k_nr1|]. intros [b t'] c'. simpl. destruct b; simpl; auto.
+  Qed.
+  Lemma la_loop_nr1 h : forall fuel c acc, nr1 (la_loop P fuel false h c acc).
+  Proof.
+    induction fuel as [|f IH]; intros c acc; simpl; auto. destruct (read P c) as [t c1].
+    apply nr1_bind; [apply any_match_nr1|]. intros [b t'] c2. simpl. destruct b; simpl; auto.
+    apply nr1_bind; [apply any_match_nr1|]. intros [b' t''] c3. simpl. destruct b'; simpl; auto.
+  Qed.
+  Lemma lookahead_nr1 h c : nr1 (lookahead P false h c).
+  Proof.
+    unfold lookahead. destruct (find_la P h); [|exact I].
+    apply nr1_bind; [apply la_loop_nr1|]. intros; exact I.
+  Qed.
+  Lemma b_call_nr1 f c : nr1 (b_call P false f c).
+  Proof. unfold b_call. destruct (f (bs c)); simpl; auto. apply add_error_nr1. Qed.
+  Lemma exec_nr1 t k : forall ps c, nr1 (exec P false t k ps c).
+  Proof.
+    induction ps as [|p ps IH]; intros c; simpl; auto.
+    apply nr1_bind; [destruct p; apply b_call_nr1 | intros; apply IH].
+  Qed.
+  Lemma run_tests_nr1 : forall tests t c, nr1 (run_tests P false tests t c).
+  Proof.
+    induction tests as [|x xs IH]; intros t c; simpl; auto.
+    apply nr1_bind; [apply match_k_nr1|]. intros [b t1] c1. simpl. destruct b; auto.
+    destruct (t_guard x).
+    - apply nr1_bind; [apply lookahead_nr1|]. intros g c2. destruct g; auto.
+      apply nr1_bind; [apply exec_nr1|]. intros; simpl; auto.
+    - apply nr1_bind; [apply exec_nr1|]. intros; simpl; auto.
+  Qed.
+  Lemma match_token_nr1 s t c : nr1 (match_token P false s t c).
+  Proof.
+    unfold match_token. destruct (find_state P s); simpl; auto.
+    apply nr1_bind; [apply run_tests_nr1|]. intros [o t'] c1. simpl. destruct o; simpl; auto.
+    apply nr1_bind; [apply add_error_nr1|]. intros; simpl; auto.
+  Qed.
+  Lemma loop_nr1 : forall fuel s c, nr1 (loop P fuel false s c).
+  Proof.
+    induction fuel as [|f IH]; intros s c; simpl; auto. destruct (read P c) as [t c1].
+    apply nr1_bind; [apply match_token_nr1|]. intros s' c2. destruct (is_eof P t); simpl; auto.
+  Qed.
+  Theorem parse_nr1 toks m b : nr1 (parse P false toks m b).
+  Proof.
+    unfold parse. apply nr1_bind; [apply b_call_nr1|]. intros _ c1.
+    apply nr1_bind; [apply loop_nr1|]. intros _ c2.
+    apply nr1_bind; [apply b_call_nr1|]. intros _ c3. destruct (errs c3); exact I.
+  Qed.
+End NoRaise1.
